@@ -219,6 +219,13 @@ func scenario(c *ev.Check, removal, phase string) {
 	}
 	e1Info, _ := ciA.Endpoints.Load(a1.URL())
 	e2Info, _ := ciA.Endpoints.Load(a2.URL())
+	// the second pick path: the client sets handed out for TokenReviews / SubjectAccessReviews (manager.ClientFor ->
+	// PickOne). It is used before the removal (both endpoints get their turn) and must obey the removal too.
+	reviewVia := func() {
+		if _, client, err := ctl.C.ClientFor("a"); err == nil && client != nil {
+			_, _ = client.CoreV1().RESTClient().Get().AbsPath("/review-path-probe").DoRaw(context.Background())
+		}
+	}
 	// bystanders
 	byA2, err1 := openStream(r, "a", "/api/v1/nodes?watch=true")
 	byB, err2 := openStream(r, "b", "/api/v1/pods?watch=true")
@@ -302,6 +309,13 @@ func scenario(c *ev.Check, removal, phase string) {
 			return
 		}
 	}
+	// (once with e2 momentarily unhealthy, so that the path has certainly handed out e1 - the one to be removed)
+	e2Info.UpdateStatus(false, "harness", "")
+	reviewVia()
+	e2Info.UpdateStatus(true, "", "")
+	for i := 0; i < 3; i++ {
+		reviewVia()
+	}
 	a1.Requests()
 	a2.Requests()
 	b1.Requests()
@@ -352,6 +366,13 @@ func scenario(c *ev.Check, removal, phase string) {
 		if h1 != 0 {
 			viol("removed-endpoint-still-picked", "the removed endpoint received %d of 20 new requests", h1)
 		}
+		for i := 0; i < 6; i++ {
+			reviewVia()
+		}
+		if n := len(a1.Requests()); n != 0 {
+			viol("removed-endpoint-still-picked-for-reviews", "the removed endpoint received %d of 6 requests sent through the client sets the gateway hands out for token / access reviews", n)
+		}
+		a2.Requests()
 		if codes[200] != 20 || h2 != 20 {
 			viol("remaining-endpoint-affected", "after removing e1 the 20 new requests got %v, e2 received %d", codes, h2)
 		}
